@@ -6,7 +6,7 @@ import json, os, re
 HERE = os.path.dirname(os.path.abspath(__file__))
 VERIF = os.path.dirname(HERE)
 first = {}
-for rnd, fn in (("r1", "seeded_round1.log"), ("r2", "seeded_round2.log")):
+for rnd, fn in (("r1", "seeded_round1.log"), ("r2", "seeded_round2.log"), ("r3", "seeded_round3.log")):
     path = os.path.join(VERIF, "notes", fn)
     if not os.path.exists(path):
         continue
@@ -15,7 +15,7 @@ for rnd, fn in (("r1", "seeded_round1.log"), ("r2", "seeded_round2.log")):
         if m:
             first[(m.group(1), m.group(2), rnd)] = m.group(4) == "True"
 rows = []
-tot = {"r1": [0, 0, 0], "r2": [0, 0, 0]}
+tot = {"r1": [0, 0, 0], "r2": [0, 0, 0], "r3": [0, 0, 0]}
 for d in sorted(os.listdir(os.path.join(VERIF, "seeded"))):
     mp = os.path.join(VERIF, "seeded", d, "meta.json")
     if not os.path.exists(mp):
@@ -36,6 +36,6 @@ for d in sorted(os.listdir(os.path.join(VERIF, "seeded"))):
 print("| property | round | change (seeded/) | caught at first evaluation | caught by the final checks | violation class |")
 print("|---|---|---|---|---|---|")
 print("\n".join(rows))
-for rnd in ("r1", "r2"):
+for rnd in ("r1", "r2", "r3"):
     print("\nround %s: %d confirmed changes, %d caught at first evaluation, %d caught by the final checks."
           % (rnd, tot[rnd][0], tot[rnd][1], tot[rnd][2]))
